@@ -823,7 +823,9 @@ theorem full_refit (laws : BoxLaws K) (q : Q K) (cur : Nat → Aabb3 K) (margin 
     (h : Full q cur) (r : Q K × Nat) (hr : refit q cur margin = some r) : Full r.1 cur ∧ BoxInv r.1 cur := by
   obtain ⟨hi, hb, _, hc⟩ := refit_establishes laws q cur margin hm h.inv h.tracked h.dq r hr
   refine ⟨⟨hi, tracked_of_boxInv _ _ hb, dirtyQueued_of_clean _ hc, ?_⟩, hb⟩
-  have hp : r.1.proxies = q.proxies := refitLoop_proxies cur margin _ _ _ _ _ hr
+  have hp : r.1.proxies = q.proxies := by
+    obtain ⟨r0, h0, rfl⟩ := refit_eq q cur margin r hr
+    simpa using refitLoop_proxies cur margin _ _ _ _ _ h0
   intro p pr hpr hne
   rw [hp] at hpr
   exact h.data p pr hpr hne
